@@ -1,10 +1,11 @@
 #!/bin/sh
 # Development tool: run every quick check at several seeds; print exit codes.
-# usage: harness/tools/sweep.sh "2 3 4" [tier]
+# usage: harness/tools/sweep.sh "2 3 4" [tier] ["C01 C06 ..."]
 cd "$(dirname "$0")/../.."
 tier=${2:-quick}
+props=${3:-C01 C02 C03 C04 C05 C06 C07 C08 C09 C10 C11 C12 C13 C14 C15 C16 C17 C18 C19 C20}
 for s in $1; do
-  for p in C01 C02 C03 C04 C05 C06 C07 C08 C09 C10 C11 C12 C13 C14 C15 C16 C17 C18 C19 C20; do
+  for p in $props; do
     out=$(VERIF_SEED=$s VERIF_EVIDENCE_DIR=/tmp/verif-sweep-$$ /venv/bin/python -m harness.run $p --tier $tier 2>&1 | grep "^VIOLATION\|^  facet\|^HARNESS\|^C[0-9][0-9] tier" | cut -c1-400)
     echo "seed=$s $out"
   done
